@@ -21,7 +21,7 @@ CHECKS['C02'] = dict(
 CHECKS['C08'] = dict(
     technique='TLA+ viable-prefix / next-terminal definitions (LFP over open spans) with Earley and LALR error branches model-checked against them (TLC) + trace validation of every real rejection (class, position, expected/allowed/accepts)',
     text='TLC proves on F_bnf that the Earley machine and the LALR driver stop at the first token after which the prefix is not viable (productive / reduced conflict-free grammars) and expect exactly the legal next terminals; the same TLA+ definitions judge class, pos_in_stream, expected/allowed and accepts of every rejection the real lark raises on F_bnf, F_rand and inputs with ignored and unknown characters under five parser/lexer pairs (CYK sampled). A look-ahead-merging family (grammars whose acceptable set depends on the whole stack, all terminal permutations, every input through one parser instance) pins accepts()/expected after merged reduce states.',
-    note='single-character terminals so that offsets are certain; LALR on S/R or non-reduced grammars judged against the automaton of LALR.tla; two known findings (non-reduced grammars, LALR loop)',
+    note='single-character terminals so that offsets are certain, plus TraceXScan.tla: the dynamic lexers over multi-character terminals against the scanner machine of XEarley.tla, and TraceLex mode C08A: allowed sets of the basic and contextual lexers; LALR on S/R or non-reduced grammars judged against the automaton of LALR.tla; three known findings (non-reduced grammars, LALR loop, $END missing from expected under the contextual lexer)',
     ref='6/C08')
 
 CHECKS['C07'] = dict(
@@ -102,7 +102,7 @@ CHECKS['C15'] = dict(
 CHECKS['C16'] = dict(
     technique='TLA+ machines of the four transformer traversals model-checked against the bottom-up fold over all ordered trees <=6 (8) nodes (TLC) + trace validation of real results and callback logs of the embedded transformer and the four classes against FoldT of the plain tree',
     text='TLC proves for every ordered tree up to the bound that Transformer/_InPlaceRecursive (recursion), _NonRecursive (reversed postfix + value stack) and _InPlace (iter_subtrees order) return the fold and run each callback exactly once, children before parents; on random EBNF LALR grammars with symbolic pure callbacks (plain, inline, tree and wrapper v_args styles; the node data is part of the value) on random subsets of rules, aliases and named terminals, TLC computes FoldT of the plain parse tree and judges the value and the callback log of Lark(..., transformer=T).parse and of the four classes. Callbacks on underscore-named and anonymous terminals (kept by ! or keep_all_tokens) are included; for the embedded transformer token callbacks are lexer callbacks (may see filtered tokens), so once-per-node is required of rule callbacks and of the four transformer classes.',
-    note='callbacks only where the statement allows them; no Discard, no meta',
+    note='callbacks only where the statement allows them; no Discard, no meta; transformers with visit_tokens=False and callbacks named like inlined rules included',
     ref='6/C16')
 
 CHECKS['C11'] = dict(
